@@ -688,6 +688,11 @@ SPECS["C03"]["parts"].append(dict(name="many-in-flight", pkg="app/router", run="
                                   files=dict(ROUTER_COMMON, **{"harness/router/zz_verif_c03many_test.go": "app/router/zz_verif_c03many_test.go"}),
                                   params={"quick": {"INFLIGHT": 4600}, "thorough": {"INFLIGHT": 12000}}, budget={"quick": 120, "thorough": 120}))
 
+for _pid in ("C01", "C04", "C05", "C06", "C12", "C16", "C18", "C20"):
+    if "E4" not in SPECS[_pid].get("technique", ""):
+        SPECS[_pid]["technique"] = SPECS[_pid].get("technique", "") + " + E4: the same exploration on overlay copies whose every statement boundary is a pause point (one goroutine held between two statements while further events are applied; preemption bound 1)"
+        SPECS[_pid]["engine"] = SPECS[_pid].get("engine", "") + " + E4 pause points"
+
 # --------------------------------------------------------------------------------------------
 # Properties not (yet) claimed. Kept current: every property without a SPECS entry must be here.
 NOT_APPLICABLE = {
